@@ -14,7 +14,7 @@ theorem SemInv.congr {ctx : Ctx} {q s : Query} {G : MG Name} (h : SemInv ctx q G
   refine ⟨h.rsub, he ▸ h.good, he ▸ h.nd, he ▸ h.est, h.usum, h.ign, ?_, ?_⟩
   · rcases h.shape with ⟨pop, c, hexpr, jc⟩ | ⟨hnj, hwf⟩
     · exact Or.inl ⟨pop, c, he.trans hexpr,
-        ⟨hd ▸ jc.okW, fun v hv => hd ▸ jc.okN v hv, jc.cover, jc.within, jc.ignIn, jc.plain, fun S hS σ => hd ▸ jc.marg S hS σ⟩⟩
+        ⟨hd ▸ jc.okW, fun v hv => hd ▸ jc.okN v hv, jc.cover, jc.within, jc.ignIn, jc.plain, fun S hS σ => hd ▸ jc.marg S hS σ, jc.nodup⟩⟩
     · exact Or.inr ⟨fun pop c => he ▸ hnj pop c, he ▸ hwf⟩
   · intro ha' hs'
     obtain ⟨t1, t2, t3, t4, t5⟩ := h.t0 (ha ▸ ha') (hs ▸ hs')
